@@ -19,7 +19,7 @@
    [group k ks]: those that land on key k.  [dispatch_counters re_match th l] (...): the outgoing
    map built by iterating over l, any order. *)
 From Coq Require Import QArith Qcanon.
-From GS Require Import Base.Bytes Model.Series Model.MetricMap Model.Tags Proofs.Tags Proofs.TagsDispatch.
+From GS Require Import Base.Bytes Model.Series Model.MetricMap Model.Tags Proofs.Tags Proofs.TagsDispatch Proofs.TagsConfig.
 From stdpp Require Import gmap.
 
 (* ---- de-duplication loop -------------------------------------------------------------- *)
@@ -196,3 +196,94 @@ Theorem C10_collisions_order_independent : forall V (rk : skey * V -> res (optio
   l1 ≡ₚ l2 -> kept rk l1 = Done ks1 -> kept rk l2 = Done ks2 -> forall k, group k ks1 ≡ₚ group k ks2.
 Proof. exact @group_order_independent. Qed.
 Print Assumptions C10_collisions_order_independent.
+
+(* ---- configuration (FILTERING.md "Configuration", "The filter block", "Matching") ---------- *)
+(* Vocabulary: a pattern string is [bang neg ++ x] (an optional '!').  [tag_config] is the configuration tree
+   viper holds: the `filters` value and the [filter.<name>] tables, each value a string, a list of strings or
+   a bool ([cval]); [raws_of_config] applies viper's casts (a string where a list is expected is split on white
+   space, ...) and looks the named tables up case-insensitively; [handler_of_config] is NewTagHandlerFromViper. *)
+
+(* every pattern string is an optional '!' and a body; what the body means: "regex:q" is Go's regexp on q
+   (a q that does not compile panics in regexp.MustCompile), otherwise "q*" is the prefix q, otherwise the
+   body itself, exactly; the '!' negates.  The "regex:" test comes after the '!' test and before the '*' test. *)
+Theorem C10_config_spelling_total : forall p : str,
+  exists (neg : bool) (x : str), p = bang neg ++ x /\ (neg = false -> str_has_prefix [c_bang] x = false).
+Proof. exact spelling_total. Qed.
+Print Assumptions C10_config_spelling_total.
+
+Theorem C10_config_semantics : forall (re_ok : str -> bool) (re_match : str -> str -> bool) neg x,
+  (neg = false -> str_has_prefix [c_bang] x = false) ->
+  let p := bang neg ++ x in
+  (forall q, x = regex_marker ++ q ->
+     if re_ok q then exists sm, new_string_match re_ok p = Done sm /\ forall s, sm_match re_match sm s = xorb (re_match q s) neg
+     else new_string_match re_ok p = GoPanic)
+  /\ (str_has_prefix regex_marker x = false -> forall q, x = q ++ [c_star] ->
+     exists sm, new_string_match re_ok p = Done sm /\ forall s, sm_match re_match sm s = xorb (str_has_prefix q s) neg)
+  /\ (str_has_prefix regex_marker x = false -> ends_with_star x = false ->
+     exists sm, new_string_match re_ok p = Done sm /\ forall s, sm_match re_match sm s = xorb (str_eqb s x) neg).
+Proof. exact config_semantics. Qed.
+Print Assumptions C10_config_semantics.
+
+(* the odd spellings: ""  "!"  "*"  "!*"  "!!a"  "*a"  "a**"  " a"  "regex:!a"  "!regex:a" *)
+Theorem C10_config_odd_spellings : forall (re_ok : str -> bool) (re_match : str -> str -> bool),
+  let means p (m : str -> bool) := exists sm, new_string_match re_ok p = Done sm /\ forall s, sm_match re_match sm s = m s in
+  means [] (fun s => str_eqb s [])
+  /\ means [c_bang] (fun s => negb (str_eqb s []))
+  /\ means [c_star] (fun _ => true)
+  /\ means [c_bang; c_star] (fun _ => false)
+  /\ means [c_bang; c_bang; 97%N] (fun s => negb (str_eqb s [c_bang; 97%N]))
+  /\ means [c_star; 97%N] (fun s => str_eqb s [c_star; 97%N])
+  /\ means [97%N; c_star; c_star] (fun s => str_has_prefix [97%N; c_star] s)
+  /\ means [32%N; 97%N] (fun s => str_eqb s [32%N; 97%N])
+  /\ (re_ok [c_bang; 97%N] = true -> means (regex_marker ++ [c_bang; 97%N]) (fun s => re_match [c_bang; 97%N] s))
+  /\ (re_ok [97%N] = true -> means (c_bang :: regex_marker ++ [97%N]) (fun s => negb (re_match [97%N] s))).
+Proof. exact odd_spellings. Qed.
+Print Assumptions C10_config_odd_spellings.
+
+(* A configuration yields the panic of regexp.MustCompile iff a pattern of a named, existing filter table
+   spells a regular expression that does not compile; otherwise a handler with exactly one filter per named
+   existing table, in the order of `filters`, every pattern string turned into its matcher ([filter_of_raw]),
+   and the de-duplicated static tags.  Nothing else can happen (no OutOfFuel, no other panic). *)
+Theorem C10_config_total : forall (re_ok : str -> bool) tags c,
+  if existsb (pattern_invalid re_ok) (config_patterns c) then handler_of_config re_ok tags c = GoPanic
+  else exists th, handler_of_config re_ok tags c = Done th
+       /\ Forall2 (filter_of_raw re_ok) (raws_of_config c) (th_filters th)
+       /\ NoDup (th_tags th) /\ forall x, x ∈ th_tags th <-> x ∈ tags.
+Proof. exact config_total. Qed.
+Print Assumptions C10_config_total.
+
+(* ... but "never a silent default" is refuted for one case: a filter that `filters` names and that has no
+   [filter.<name>] table is skipped (the code only logs a warning); the server runs with no filter. *)
+Theorem C10_config_total_refuted_missing_block :
+  exists c, cfg_filters c = Some (VList [[97%N]]) /\
+            forall re_ok tags, exists th, handler_of_config re_ok tags c = Done th /\ th_filters th = [].
+Proof. exact config_missing_block_skipped. Qed.
+Print Assumptions C10_config_total_refuted_missing_block.
+
+(* ---- the regex-free fragment: no oracle ------------------------------------------------------ *)
+(* [plain_output] (Model/Tags.v) is written with string equality and prefix tests only.  For a handler whose
+   filters hold no `regex:` pattern, whatever the regexp oracle is, a metric is dropped iff plain_output says
+   so, and otherwise source and stored (sorted) tag list are the ones plain_output gives. *)
+Theorem C10_decidable_spec : forall re_match th name src tags,
+  regex_free th -> NoDup (th_tags th) ->
+  match plain_output th name src tags with
+  | None => unique_filter_add re_match th name src tags = Done None
+  | Some (src', stags) => exists r, unique_filter_add re_match th name src tags = Done (Some (src', r))
+                                    /\ sort_tags r = stags
+  end.
+Proof. exact decidable_spec. Qed.
+Print Assumptions C10_decidable_spec.
+
+(* the same for the Each callback of DispatchMetricMap: new key and stored series *)
+Theorem C10_decidable_spec_rekey : forall re_match V (src_of : V -> str) tags_of retag th e,
+  regex_free th -> NoDup (th_tags th) ->
+  rekey re_match src_of tags_of retag th e = Done (plain_rekey src_of tags_of retag th e).
+Proof. exact decidable_spec_rekey. Qed.
+Print Assumptions C10_decidable_spec_rekey.
+
+(* a configuration without any `regex:` spelling gives a regex-free handler *)
+Theorem C10_config_regex_free : forall re_ok tags c th,
+  (forall p, p ∈ config_patterns c -> forall neg q, spelling_of p <> SpRegex neg q) ->
+  handler_of_config re_ok tags c = Done th -> regex_free th.
+Proof. exact config_regex_free. Qed.
+Print Assumptions C10_config_regex_free.
